@@ -375,6 +375,76 @@ def cstr_extent_functions(cm):
     return out
 
 
+def check_pput(ctx, u, R):
+    """StringWriter::pput<T>: wrap-checked end offset, grow-to-cover, zero fill, copy shape."""
+    sw = [f for f in u.functions if strip_targs(u.qualname(f)) == STRW + '::pput' and not is_dependent_pattern(f, u)]
+    ctx.require(len(sw) >= 5, 'StringWriter::pput instantiations not found')
+    inl = GetterInliner(u, STRW)
+    seen = set()
+    for f in sw:
+        t = [c['type']['qualType'] for c in kids(f) if c.get('kind') == 'TemplateArgument'][0]
+        if t in seen:
+            continue
+        seen.add(t)
+        lab = 'StringWriter::pput<%s>' % t
+        ctx.fn(lab)
+        body = body_of(f)
+        copies = [c for c in walk(body) if c.get('kind') == 'CallExpr' and call_name(c) in ('memcpy', '__builtin_memcpy', 'memmove')]
+        if len(copies) != 1:
+            ctx.bad(R, lab + '|copy', body, 'expected exactly one memcpy into the string, found %d' % len(copies))
+            continue
+        cp = copies[0]
+        dst, srcp, nbytes = call_args(cp)
+        dstc = inl.c(dst)
+        szT = sizeof_type(t)
+        nb = int_value(nbytes)
+        off = params_of(f)[0].get('name')
+        ok_dst = dstc in ('(%s + this.data.data())' % off, '(this.data.data() + %s)' % off)
+        ctx.check(ok_dst and nb is not None and nb == szT, R, lab + '|copy-shape', cp, 'memcpy(data.data() + %s, &v, %s)' % (off, nb),
+                  'copy is memcpy(%s, ..., %s); expected destination data.data() + %s and sizeof(T) = %s bytes' % (dstc, canon(nbytes), off, szT))
+        # definitions of locals
+        defs = {}
+        for x in walk(body):
+            if x.get('kind') == 'VarDecl' and kids(x):
+                defs[x.get('name')] = (x, inl.c(kids(x)[-1]))
+        ends = [nm for nm, (vd, e) in defs.items() if e in ('(%s + %s)' % (off, szT), '(%s + %s)' % (szT, off))]
+        rels = rels_at(cp, inl)
+        if not ends:
+            ctx.bad(R, lab + '|end-offset', cp, 'no local holds offset + sizeof(T); cannot establish the wrap check')
+            continue
+        end = ends[0]
+        wrap_ok = holds(rels, end, ('>=',), off) or holds(rels, end, ('>',), off)
+        ctx.check(wrap_ok, R, lab + '|wrap-check', cp, '`%s < %s` leads to a throw before the copy' % (end, off),
+                  'the sum %s = %s + sizeof(T) is not tested for wrap-around before it is used as the new size: pput(SIZE_MAX-1, v) resizes to a tiny size and copies far outside the buffer' % (end, off))
+        # grow: a preceding `if (end > size) resize(end)` (either orientation)
+        grow_ok = False
+        detail = ''
+        for s in preceding_statements(cp):
+            if s.get('kind') == 'IfStmt':
+                cond, then, els = if_parts(s)
+                r = relation(cond, True)
+                if r:
+                    a, op, b = inl.c(r[0]), r[1], inl.c(r[2])
+                    is_gt = (a == end and op == '>' and b == 'this.data.size()') or (b == end and op == '<' and a == 'this.data.size()')
+                    if is_gt and then is not None:
+                        for c in walk(then):
+                            if c.get('kind') == 'CXXMemberCallExpr' and call_name(c) in ('resize', 'extend_to'):
+                                a0 = inl.c(call_args(c)[0])
+                                if a0 == end:
+                                    grow_ok = True
+                                    fill = call_args(c)[1] if len(call_args(c)) > 1 else None
+                                    fv = int_value(fill) if fill is not None and fill.get('kind') != 'CXXDefaultArgExpr' else 0
+                                    ctx.check(fv == 0, R, lab + '|zero-fill', c, 'gap filled with NUL bytes', 'the gap created by a positional write past the end is filled with %r, not zero' % fv)
+                    elif then is not None and any(c.get('kind') == 'CXXMemberCallExpr' and call_name(c) in ('resize', 'extend_to') for c in walk(then)):
+                        detail = 'the grow is guarded by `%s %s %s`, not by `%s > size()`' % (a, op, b, end)
+        if not grow_ok:
+            # alternatively a dominating fact end <= size()
+            grow_ok = holds(rels, end, ('<=',), 'this.data.size()')
+        ctx.check(grow_ok, R, lab + '|grow-covers-write', cp, 'string grown to %s whenever %s > size()' % (end, end),
+                  'the string is not guaranteed to cover [%s, %s) at the copy: %s' % (off, end, detail or 'no `if (%s > size()) resize(%s)` dominates the memcpy' % (end, end)))
+
+
+
 def run(ctx):
     ctx.rule('C02-R1', 'every raw use of the reader/writer buffer pointer is dominated by an overflow-safe guard: A <= L and E <= L - A (sum-form guards rejected)', 30)
     ctx.rule('C02-R2', 'every cursor write in a read operation is justified by a dominating check of the same extent, is the returned extent of a clamping read, or is followed by the clamp offset = length', 14)
@@ -480,72 +550,7 @@ def run(ctx):
             ctx.bad(R, key, x, 'cursor advanced by %s without a dominating bounds check of that extent, a clamping read that returned it, or a following clamp: the cursor can end beyond the data (remaining() underflows). %s' % (Dc, why))
 
     # ---- R3 StringWriter::pput
-    R = 'C02-R3'
-    sw = [f for f in u.functions if strip_targs(u.qualname(f)) == STRW + '::pput' and not is_dependent_pattern(f, u)]
-    ctx.require(len(sw) >= 5, 'StringWriter::pput instantiations not found')
-    inl = GetterInliner(u, STRW)
-    seen = set()
-    for f in sw:
-        t = [c['type']['qualType'] for c in kids(f) if c.get('kind') == 'TemplateArgument'][0]
-        if t in seen:
-            continue
-        seen.add(t)
-        lab = 'StringWriter::pput<%s>' % t
-        ctx.fn(lab)
-        body = body_of(f)
-        copies = [c for c in walk(body) if c.get('kind') == 'CallExpr' and call_name(c) in ('memcpy', '__builtin_memcpy', 'memmove')]
-        if len(copies) != 1:
-            ctx.bad(R, lab + '|copy', body, 'expected exactly one memcpy into the string, found %d' % len(copies))
-            continue
-        cp = copies[0]
-        dst, srcp, nbytes = call_args(cp)
-        dstc = inl.c(dst)
-        szT = sizeof_type(t)
-        nb = int_value(nbytes)
-        off = params_of(f)[0].get('name')
-        ok_dst = dstc in ('(%s + this.data.data())' % off, '(this.data.data() + %s)' % off)
-        ctx.check(ok_dst and nb is not None and nb == szT, R, lab + '|copy-shape', cp, 'memcpy(data.data() + %s, &v, %s)' % (off, nb),
-                  'copy is memcpy(%s, ..., %s); expected destination data.data() + %s and sizeof(T) = %s bytes' % (dstc, canon(nbytes), off, szT))
-        # definitions of locals
-        defs = {}
-        for x in walk(body):
-            if x.get('kind') == 'VarDecl' and kids(x):
-                defs[x.get('name')] = (x, inl.c(kids(x)[-1]))
-        ends = [nm for nm, (vd, e) in defs.items() if e in ('(%s + %s)' % (off, szT), '(%s + %s)' % (szT, off))]
-        rels = rels_at(cp, inl)
-        if not ends:
-            ctx.bad(R, lab + '|end-offset', cp, 'no local holds offset + sizeof(T); cannot establish the wrap check')
-            continue
-        end = ends[0]
-        wrap_ok = holds(rels, end, ('>=',), off) or holds(rels, end, ('>',), off)
-        ctx.check(wrap_ok, R, lab + '|wrap-check', cp, '`%s < %s` leads to a throw before the copy' % (end, off),
-                  'the sum %s = %s + sizeof(T) is not tested for wrap-around before it is used as the new size: pput(SIZE_MAX-1, v) resizes to a tiny size and copies far outside the buffer' % (end, off))
-        # grow: a preceding `if (end > size) resize(end)` (either orientation)
-        grow_ok = False
-        detail = ''
-        for s in preceding_statements(cp):
-            if s.get('kind') == 'IfStmt':
-                cond, then, els = if_parts(s)
-                r = relation(cond, True)
-                if r:
-                    a, op, b = inl.c(r[0]), r[1], inl.c(r[2])
-                    is_gt = (a == end and op == '>' and b == 'this.data.size()') or (b == end and op == '<' and a == 'this.data.size()')
-                    if is_gt and then is not None:
-                        for c in walk(then):
-                            if c.get('kind') == 'CXXMemberCallExpr' and call_name(c) in ('resize', 'extend_to'):
-                                a0 = inl.c(call_args(c)[0])
-                                if a0 == end:
-                                    grow_ok = True
-                                    fill = call_args(c)[1] if len(call_args(c)) > 1 else None
-                                    fv = int_value(fill) if fill is not None and fill.get('kind') != 'CXXDefaultArgExpr' else 0
-                                    ctx.check(fv == 0, 'C02-R3', lab + '|zero-fill', c, 'gap filled with NUL bytes', 'the gap created by a positional write past the end is filled with %r, not zero' % fv)
-                    elif then is not None and any(c.get('kind') == 'CXXMemberCallExpr' and call_name(c) in ('resize', 'extend_to') for c in walk(then)):
-                        detail = 'the grow is guarded by `%s %s %s`, not by `%s > size()`' % (a, op, b, end)
-        if not grow_ok:
-            # alternatively a dominating fact end <= size()
-            grow_ok = holds(rels, end, ('<=',), 'this.data.size()')
-        ctx.check(grow_ok, R, lab + '|grow-covers-write', cp, 'string grown to %s whenever %s > size()' % (end, end),
-                  'the string is not guaranteed to cover [%s, %s) at the copy: %s' % (off, end, detail or 'no `if (%s > size()) resize(%s)` dominates the memcpy' % (end, end)))
+    check_pput(ctx, u, 'C02-R3')
 
     # ---- R4 exception types
     R = 'C02-R4'
